@@ -48,6 +48,7 @@ type Verifier struct {
 	litCache   map[*ast.FuncDecl]map[*ast.FuncLit]int
 	globalInit map[*types.Var]ast.Expr
 	globalPkg  map[*types.Var]*Pkg
+	traceMemo  map[string]int
 }
 
 func loadRepo(dir string) (*Verifier, error) {
@@ -234,7 +235,7 @@ func (v *Verifier) traceColSort(fx *Fx, col string) (string, types.Type) {
 	switch col {
 	case "recv":
 		return SRef, nil
-	case "meth", "iter", "callat":
+	case "meth", "iter", "callat", "acc":
 		return SInt, types.Typ[types.Int]
 	}
 	if s, ok := v.colSorts[col]; ok {
@@ -276,6 +277,86 @@ func (v *Verifier) globalLiteral(ob *types.Var) (string, bool) {
 		return constant.StringVal(tv.Value), true
 	}
 	return "", false
+}
+
+// mayTouchTrace: does the function (transitively) call abstract callees (interface methods, function values)?
+// Callers must then treat the ghost call trace as changed by the call.
+func (v *Verifier) mayTouchTrace(key string) bool {
+	if v.traceMemo == nil {
+		v.traceMemo = map[string]int{}
+	}
+	switch v.traceMemo[key] {
+	case 1:
+		return true
+	case 2, 3:
+		return false // 3 = in progress (recursion): assume no, the other callee decides
+	}
+	v.traceMemo[key] = 3
+	fd := v.decls[key]
+	res := false
+	if fd != nil && fd.decl.Body != nil {
+		info := fd.pkg.info
+		ast.Inspect(fd.decl.Body, func(n ast.Node) bool {
+			call, ok := n.(*ast.CallExpr)
+			if !ok || res {
+				return !res
+			}
+			if tv, ok := info.Types[call.Fun]; ok && tv.IsType() {
+				return true
+			}
+			fun := ast.Unparen(call.Fun)
+			if ix, ok := fun.(*ast.IndexExpr); ok {
+				fun = ix.X
+			}
+			var obj types.Object
+			switch f := fun.(type) {
+			case *ast.Ident:
+				obj = info.Uses[f]
+			case *ast.SelectorExpr:
+				if sel, ok := info.Selections[f]; ok {
+					if sel.Kind() == types.FieldVal {
+						res = true // function-typed field
+						return false
+					}
+					obj = sel.Obj()
+					if _, isTP := sel.Recv().(*types.TypeParam); isTP {
+						return true
+					}
+					if _, isIface := sel.Recv().Underlying().(*types.Interface); isIface {
+						res = true
+						return false
+					}
+				} else {
+					obj = info.Uses[f.Sel]
+				}
+			case *ast.FuncLit:
+				return true
+			default:
+				res = true // call of a call result etc.
+				return false
+			}
+			switch o := obj.(type) {
+			case *types.Var:
+				res = true // function value
+				return false
+			case *types.Func:
+				o = o.Origin()
+				if o.Pkg() != nil && v.pkgByTypes[o.Pkg()] != nil {
+					if v.mayTouchTrace(v.funcKey(o)) {
+						res = true
+						return false
+					}
+				}
+			}
+			return true
+		})
+	}
+	if res {
+		v.traceMemo[key] = 1
+	} else {
+		v.traceMemo[key] = 2
+	}
+	return res
 }
 
 func (v *Verifier) loopOrdinals(d *ast.FuncDecl) map[ast.Node]int {
